@@ -19,7 +19,7 @@ From Coq Require Import Floats.SpecFloat.
 From VRL Require Import Base.Bytes Base.Value Base.Lit Model.ConvRes Model.Arith Model.IntText Model.NumFns.
 From Coq Require Import Reals.
 From Flocq Require Import Core.Core IEEE754.BinarySingleNaN.
-From VRL Require Import Proofs.ArithProofs Proofs.NumFnsProofs Proofs.NumFnsFloatProofs Proofs.NumFnsRealProofs.
+From VRL Require Import Proofs.ArithProofs Proofs.NumFnsProofs Proofs.NumFnsFloatProofs Proofs.NumFnsRealProofs Proofs.NumFnsTextProofs.
 Import ListNotations.
 Local Open Scope Z_scope.
 
@@ -270,6 +270,16 @@ Proof.
   intros fmt_f64 fmt_ts z Hz. split; [apply int_text_roundtrip; exact Hz | apply to_int_to_float].
 Qed.
 Print Assumptions C29_conv_consistent.
+
+(* integer -> text -> float: the (correctly rounded) decimal parser reads the digits of any i64 back as `z as f64`, so
+   to_float and parse_float on to_string z agree with to_float z, for EVERY i64 (beyond 2^53 both round to nearest even) *)
+Theorem C29_conv_int_text_float : forall (fmt_f64 : spec_float -> bytes) (fmt_ts : Z -> bytes) (z : Z),
+  ConvRes.in_i64 z = true ->
+  exists s, to_string fmt_f64 fmt_ts (VInt z) = ROk (VBytes s)
+            /\ to_float (VBytes s) = to_float (VInt z)
+            /\ parse_float (VBytes s) = to_float (VInt z).
+Proof. exact to_float_int_text. Qed.
+Print Assumptions C29_conv_int_text_float.
 
 (* float <-> text: f64's Display is library code (a parameter of to_string).  Whenever the text it produced for f is read
    back as f by the correctly rounded decimal parser of the model (checked on the implementation for every generated
